@@ -168,7 +168,7 @@ static void phase_pre(uint32_t) {
 #else
   g_size = VF_SIZE;
 #endif
-  new (&g_holder.p) Pool(g_size, Init{});
+  makePool(g_holder, g_size);
   vf_check(g_next == (int32_t)g_size, "the constructor calls init exactly size times");
   checkQueueIsFull(pool(), g_size);
 }
